@@ -261,6 +261,7 @@ func checkC04(c *h.Check) {
 		specs[i].spec.Hist = 0
 	}
 	specs = append(specs, cleanupSpecs(c.Tier == "thorough")...)
+	specs = append(specs, manyTwinsSpecs()...) // same-named providers in same-named packages, with cleanups
 	cases, results := runSpecs(c, specs, map[string]bool{"cleanup": true})
 	stdCoverage(c, cases, results, "the C03 DAG family on the success path plus chains/diamonds/fan-ins/ladders with 4-5 cleanup providers, every subset of cleanup-returning nodes, and each node re-kinded as struct/field/pointer-field/binding/value/parameter step. Distinct = distinct rendered source.")
 	sampleCase(c, cases, results)
